@@ -109,6 +109,17 @@ impl LossIntervalQueue {
     }
 }
 
+#[cfg(uflow_verif)]
+impl LossIntervalQueue {
+    pub fn verif_len(&self) -> usize {
+        self.entries.len()
+    }
+
+    pub fn verif_lengths(&self) -> Vec<u32> {
+        self.entries.iter().map(|e| e.length).collect()
+    }
+}
+
 #[cfg(test)]
 mod tests {
     use super::*;
